@@ -341,6 +341,22 @@ pub fn aframe(cfg: &CCfg, f: &AF, idx: u64) -> (Vec<u8>, Option<Vec<u8>>, bool) 
     let size = f.size.clamp(1, 8000);
     match f.kind {
         AKind::Empty => (vec![], None, false),
+        AKind::Garbage if cfg.audio != 7 && f.shape % 4 == 3 => {
+            // a well-formed ID3v2 tag (as packed-audio segments carry in front of ADTS), alone or followed by a valid ADTS
+            // frame: the buffer does not start with the ADTS syncword, so it is not an ADTS frame
+            let body = (size as usize).min(120);
+            let footer = f.shape & 4 != 0;
+            let mut g = vec![b'I', b'D', b'3', 4, 0, if footer { 0x10 } else { 0 }, 0, 0, (body >> 7) as u8, (body & 0x7f) as u8];
+            g.extend(filler(body, tag, 0).iter().map(|b| b & 0x7f));
+            if footer {
+                g.extend_from_slice(&[b'3', b'D', b'I', 4, 0, 0x10, 0, 0, (body >> 7) as u8, (body & 0x7f) as u8]);
+            }
+            if f.shape & 8 != 0 {
+                let ag = AdtsGene { protection_absent: true, profile: 1, sfi: 3, chan: 2, payload_len: 32, extra: 0, fill: 0, corrupt: 0, misc: 0 };
+                g.extend(ag.build(tag).0);
+            }
+            (g, None, false)
+        }
         AKind::Garbage => {
             let mut g = filler(size as usize, tag, 0);
             // ADTS: first byte 0x1x is not a syncword. Opus: any first byte is a TOC => make the packet invalid:
